@@ -20,7 +20,7 @@ Term(m, i, o, w, pad) == [mode |-> m, pin |-> IF i > 0 THEN i + pad ELSE 0,
                           pout |-> IF o > 0 THEN o + pad ELSE 0, rw |-> w, din |-> i, dout |-> o]
 Terms(kind) == CASE kind = "tiny" -> <<Term("F", 1, 1, TRUE, 0)>>
                  [] kind = "wide" -> <<Term("F", 700, 700, TRUE, 0)>>
-                 [] kind = "aero" -> <<Term("A", 64, 8, TRUE, 36), Term("F", 0, 1400, TRUE, 0)>>
+                 [] kind = "aero" -> <<Term("A", 64, 8, TRUE, 36), Term("F", 0, 700, TRUE, 0)>>
 Group(p, kind) == [op |-> "group", proc |-> p, n |-> 0, ts |-> Terms(kind)]
 Churn(p, n) == [op |-> "churn", proc |-> p, n |-> n, ts |-> <<>>]
 Crowd(p, n) == [op |-> "crowd", proc |-> p, n |-> n, ts |-> Terms("tiny")]
